@@ -128,6 +128,13 @@ def anim_file(spec) -> str:
     return path
 
 
+def is_pil_apng_defect(exc) -> bool:
+    """Pillow 11.1 itself raises SyntaxError('APNG contains frame sequence errors') when an APNG is sought
+    backwards from a middle frame and then forwards again (pure-PIL reproduction: seek 1, load, seek 0, load,
+    seek 1).  Not the library's doing: checks count such cases as excluded."""
+    return isinstance(exc, SyntaxError) and "APNG contains frame sequence errors" in str(exc)
+
+
 def still_file(spec, fmt="PNG") -> str:
     from . import env
 
